@@ -130,6 +130,8 @@ func (r *ring) list() []string {
 			out = append(out, fmt.Sprintf("#%d GetDepth() = %d", i, x.dep))
 		case x.op == "Requeue":
 			out = append(out, fmt.Sprintf("#%d Requeue(%s)", i, clipB(x.b)))
+		case x.note != "":
+			out = append(out, fmt.Sprintf("#%d %s() = nil, %s", i, x.op, x.note))
 		case x.b == nil:
 			out = append(out, fmt.Sprintf("#%d %s() = nil", i, x.op))
 		default:
